@@ -713,25 +713,59 @@ fn corrupt(rng: &mut Rng, t: &mut Table, ctx: &mut Ctx) {
 // ---------------------------------------------------------------------------------------------
 // speed/grade model
 
+/// the underlying models: the four bundled random forests, plus stub forests trained here on random
+/// bilinear-plus-noise data and written to work/ (the interpolation model can only be built from a model
+/// file: its fields are private and `new` loads the underlying model itself)
 struct Underlying {
+    paths: Vec<String>,
     models: Vec<SmartcoreSpeedGradeModel>,
 }
 
+fn train_stub(seed: u64, k: usize, dir: &str) -> String {
+    use smartcore::ensemble::random_forest_regressor::{RandomForestRegressor, RandomForestRegressorParameters};
+    use smartcore::linalg::basic::matrix::DenseMatrix;
+    let mut rng = Rng::for_case(seed, 1400, k as u64);
+    let n = 20 + rng.below(60);
+    let (a, b, c, d) = (rng.uniform(0.0, 1.0), rng.uniform(-0.01, 0.01), rng.uniform(-2.0, 2.0), rng.uniform(-0.05, 0.05));
+    let noise = if k % 2 == 0 { 0.0 } else { 0.2 };
+    let mut rows = vec![];
+    let mut ys = vec![];
+    for _ in 0..n {
+        let s = rng.uniform(0.0, 200.0);
+        let g = rng.uniform(-30.0, 30.0);
+        rows.push(vec![s, g]);
+        ys.push(a + b * s + c * g + d * s * g + noise * rng.uniform(-1.0, 1.0));
+    }
+    let x = DenseMatrix::from_2d_vec(&rows);
+    let params = RandomForestRegressorParameters::default()
+        .with_n_trees(1 + k % 3)
+        .with_max_depth(10)
+        .with_min_samples_leaf(1)
+        .with_min_samples_split(2)
+        .with_m(2)
+        .with_seed(seed ^ k as u64);
+    let rf: RandomForestRegressor<f64, f64, DenseMatrix<f64>, Vec<f64>> =
+        RandomForestRegressor::fit(&x, &ys, params).expect("stub forest trains");
+    std::fs::create_dir_all(dir).expect("stub dir");
+    let path = format!("{}/stub_{}.bin", dir, k);
+    std::fs::write(&path, bincode::serialize(&rf).expect("stub serialises")).expect("stub written");
+    path
+}
+
 impl Underlying {
-    fn load() -> Underlying {
-        let models = MODELS
+    fn load(seed: u64, stubs: usize) -> Underlying {
+        let mut paths: Vec<String> = MODELS.iter().map(|m| format!("{}/{}", MODEL_DIR, m)).collect();
+        for k in 0..stubs {
+            paths.push(train_stub(seed, k, "work/C14_stub"));
+        }
+        let models = paths
             .iter()
-            .map(|m| {
-                SmartcoreSpeedGradeModel::new(
-                    &format!("{}/{}", MODEL_DIR, m),
-                    SpeedUnit::MilesPerHour,
-                    GradeUnit::Decimal,
-                    EnergyRateUnit::GallonsGasolinePerMile,
-                )
-                .expect("bundled model loads")
+            .map(|p| {
+                SmartcoreSpeedGradeModel::new(p, SpeedUnit::MilesPerHour, GradeUnit::Decimal, EnergyRateUnit::GallonsGasolinePerMile)
+                    .expect("underlying model loads")
             })
             .collect();
-        Underlying { models }
+        Underlying { paths, models }
     }
     /// raw random-forest output at (s, g)
     fn rate(&self, m: usize, s: f64, g: f64) -> f64 {
@@ -786,7 +820,7 @@ fn sg_model_type(spec: &SgSpec) -> ModelType {
 }
 
 fn case_sg(ctx: &mut Ctx, idx: usize, und: &Underlying, spec: &SgSpec, queries: &[Query]) {
-    let path = format!("{}/{}", MODEL_DIR, MODELS[spec.model]);
+    let path = und.paths[spec.model].clone();
     // the underlying model as `new` will see it (same file, same units)
     let nested_model = spec.nested.map(|(a, b, n, c, d, m)| {
         InterpolationSpeedGradeModel::new(&path, ModelType::Smartcore, "u".to_string(), spec.su, (Speed::new(a), Speed::new(b)), n, spec.gu, (Grade::new(c), Grade::new(d)), m, spec.ru)
@@ -830,7 +864,13 @@ fn case_sg(ctx: &mut Ctx, idx: usize, und: &Underlying, spec: &SgSpec, queries: 
             spec.ru,
         )
     }));
-    ctx.count(if spec.nested.is_some() { "sg_underlying_interpolation" } else { "sg_underlying_random_forest" });
+    ctx.count(if spec.nested.is_some() {
+        "sg_underlying_interpolation"
+    } else if spec.model < MODELS.len() {
+        "sg_underlying_bundled_forest"
+    } else {
+        "sg_underlying_stub_forest"
+    });
     ctx.count(&format!("sg_model_units_{}_{}", spec.su, spec.gu));
     let model = match built {
         Err(_) => {
@@ -934,11 +974,11 @@ fn case_sg(ctx: &mut Ctx, idx: usize, und: &Underlying, spec: &SgSpec, queries: 
     }
 }
 
-fn gen_sg(rng: &mut Rng, realistic: bool) -> SgSpec {
+fn gen_sg(rng: &mut Rng, realistic: bool, n_models: usize) -> SgSpec {
     let su = *rng.pick(&S);
     let gu = *rng.pick(&G);
     let ru = *rng.pick(&ER);
-    let model = rng.below(MODELS.len());
+    let model = if realistic { rng.below(MODELS.len()) } else { rng.below(n_models) };
     // bounds in the model's units, roughly 0..100 mph and -0.2..0.2
     let mph = SpeedUnit::MilesPerHour.convert(&Speed::new(1.0), &su).as_f64();
     let dec = GradeUnit::Decimal.convert(&Grade::new(1.0), &gu).as_f64();
@@ -1012,7 +1052,7 @@ fn plain_points(pts: Vec<Vec<f64>>) -> Points {
 }
 
 pub fn run(ctx: &mut Ctx) -> &'static str {
-    let und = Underlying::load();
+    let und = Underlying::load(ctx.seed, ctx.n(8, 40));
 
     // ---- corpus: witnesses of the findings and hand-written boundary cases
     {
@@ -1138,7 +1178,7 @@ pub fn run(ctx: &mut Ctx) -> &'static str {
     }
 
     // ---- find_nearest_index
-    for k in 0..ctx.n(300, 6000) {
+    for k in 0..ctx.n(600, 20000) {
         let Some(idx) = ctx.begin() else { continue };
         let mut rng = Rng::for_case(ctx.seed, 14, idx as u64);
         let n = if k % 25 == 0 { 1 } else { 2 + rng.below(12) };
@@ -1148,7 +1188,7 @@ pub fn run(ctx: &mut Ctx) -> &'static str {
         case_fni(ctx, idx, g, t);
     }
     // ---- linspace
-    for _ in 0..ctx.n(100, 2000) {
+    for _ in 0..ctx.n(200, 5000) {
         let Some(idx) = ctx.begin() else { continue };
         let mut rng = Rng::for_case(ctx.seed, 14, idx as u64);
         let a = if rng.chance(1, 2) { rng.range(-100, 100) as f64 } else { rng.uniform(-100.0, 100.0) };
@@ -1157,7 +1197,7 @@ pub fn run(ctx: &mut Ctx) -> &'static str {
         case_lin(ctx, idx, a, b, n);
     }
     // ---- generic interpolators, every dimension; ND against 1D/2D/3D on the same data
-    for k in 0..ctx.n(500, 12000) {
+    for k in 0..ctx.n(1500, 40000) {
         let mut rng = Rng::for_case(ctx.seed, 14, 1_000_000 + k as u64);
         let d = 1 + rng.below(3);
         let mut t = gen_table(&mut rng, d, if d == 3 { 5 } else { 7 }, k % 10 == 9);
@@ -1198,7 +1238,7 @@ pub fn run(ctx: &mut Ctx) -> &'static str {
         }
     }
     // ---- ND in four and five dimensions
-    for k in 0..ctx.n(60, 1500) {
+    for k in 0..ctx.n(150, 5000) {
         let Some(idx) = ctx.begin() else { continue };
         let mut rng = Rng::for_case(ctx.seed, 14, idx as u64);
         let d = 4 + rng.below(2);
@@ -1207,10 +1247,10 @@ pub fn run(ctx: &mut Ctx) -> &'static str {
         case_interp(ctx, idx, &t, true, k % 6 == 5, 1, &pts);
     }
     // ---- speed/grade model
-    for k in 0..ctx.n(150, 3000) {
+    for k in 0..ctx.n(400, 10000) {
         let Some(idx) = ctx.begin() else { continue };
         let mut rng = Rng::for_case(ctx.seed, 14, idx as u64);
-        let spec = gen_sg(&mut rng, k % 50 == 49);
+        let spec = gen_sg(&mut rng, k % 50 == 49, und.paths.len());
         let qs = gen_queries(&mut rng, &spec, 4);
         case_sg(ctx, idx, &und, &spec, &qs);
     }
